@@ -26,6 +26,8 @@ pub enum Kind {
     Sgdt { addr: u64 },
     Sidt { addr: u64 },
     Ltr { gpr: u8 },
+    /// `ltr m16`
+    LtrMem { addr: u64 },
     Swapgs,
     Retfq,
     Iretq,
@@ -221,6 +223,9 @@ pub fn decode(bytes: &[u8], regs: &dyn Regs) -> Option<Insn> {
                     let m = modrm(&mut c, rex, regs)?;
                     if (m.reg & 7) == 3 && m.md == 3 {
                         Kind::Ltr { gpr: m.rm }
+                    } else if (m.reg & 7) == 3 {
+                        let addr = fix(&c, &m, regs)?;
+                        Kind::LtrMem { addr }
                     } else {
                         return None;
                     }
@@ -315,6 +320,7 @@ mod tests {
         assert_eq!(decode(&[0x66, 0x0f, 0x38, 0x82, 0x01], &R).unwrap().kind, Kind::Invpcid { kind_gpr: 0, addr: 0x2000 });
         assert_eq!(decode(&[0xf3, 0x48, 0x0f, 0xae, 0xc0], &R).unwrap().kind, Kind::FsGsBase { which: 0, gpr: 0, wide: true });
         assert_eq!(decode(&[0x0f, 0x00, 0xd8], &R).unwrap().kind, Kind::Ltr { gpr: 0 });
+        assert!(matches!(decode(&[0x0f, 0x00, 0x18], &R).unwrap().kind, Kind::LtrMem { .. }));
         assert_eq!(decode(&[0x8c, 0xc8], &R).unwrap().kind, Kind::MovFromSreg { sreg: 1, gpr: 0, opsize: 4 });
         // mov word ptr [rax], cs / mov ds, word ptr [rcx] / push fs / pop gs
         assert!(matches!(decode(&[0x8c, 0x08], &R).unwrap().kind, Kind::MovSregToMem { sreg: 1, .. }));
